@@ -1,0 +1,36 @@
+//go:build verif
+
+package m
+
+import "time"
+
+// VerifEntries returns a copy of the routing table entries (in table order).
+// Verification hook: only compiled with the "verif" build tag.
+func (rt *RoutingTable) VerifEntries() []RoutingTableEntry {
+	rt.lock.RLock()
+	defer rt.lock.RUnlock()
+
+	out := make([]RoutingTableEntry, 0, len(rt.entries))
+	for _, e := range rt.entries {
+		out = append(out, *e)
+	}
+	return out
+}
+
+// VerifAgeEntries simulates the passage of d for all non-peer entries by
+// moving their expiry into the past by d. Entries are treated as constants,
+// so every aged entry is replaced by a copy.
+// Verification hook: only compiled with the "verif" build tag.
+func (rt *RoutingTable) VerifAgeEntries(d time.Duration) {
+	rt.lock.Lock()
+	defer rt.lock.Unlock()
+
+	for i, e := range rt.entries {
+		if e.Source == RouteSourcePeer {
+			continue
+		}
+		aged := *e
+		aged.Expires = aged.Expires.Add(-d)
+		rt.entries[i] = &aged
+	}
+}
